@@ -67,7 +67,7 @@ def main():
     if '--jobs' in args:
         jobs = int(args[args.index('--jobs') + 1]); del args[args.index('--jobs'):args.index('--jobs') + 2]
     table = vocab.load()
-    pids = args or sorted(table)
+    pids = args or sorted(k for k in table if not k.startswith('_'))
     todo = []
     for pid in pids: todo += variants_for(pid, table)
     print('%d single-variable renames over %d properties' % (len(todo), len(pids)))
